@@ -16,14 +16,30 @@ type planDest struct {
 	Sock    int  `json:"sock"`
 	Name    bool `json:"name"`    // addressed by domain name (resolved by the owned resolver)
 	DelayMs int  `json:"delayMs"` // scripted answer delay of the name
+	// Flaky: the name does not resolve at first (Fail: "servfail" | "nxdomain") and is made resolvable by
+	// the tour of the one session that uses it.
+	Flaky bool   `json:"flaky,omitempty"`
+	Fail  string `json:"fail,omitempty"`
+	// SameAs >= 0 (with AltPort): the very same name as dest SameAs, but with the port of the target's
+	// second socket.
+	AltPort bool `json:"altPort,omitempty"`
+	SameAs  int  `json:"sameAs,omitempty"`
+}
+
+// tourStops are the destinations one session walks through (a single NAT / ss2022 session that
+// changes targets): name A, other name B, back to A, a name F whose lookup fails (twice), A again,
+// F once it resolves, an IP, B, then A's name with another port, A.
+type tourStops struct {
+	A, B, F, IP, AP int
 }
 
 type planOp struct {
-	Kind string `json:"kind"` // paced | burst | rebind
-	Dest int    `json:"dest"` // index into Dests
-	Alt  int    `json:"alt"`  // second dest; paced/burst alternate Dest, Alt
-	N    int    `json:"n"`
-	Fill int    `json:"fill"`
+	Kind string     `json:"kind"` // paced | burst | rebind | tour
+	Dest int        `json:"dest"` // index into Dests
+	Alt  int        `json:"alt"`  // second dest; paced/burst alternate Dest, Alt
+	N    int        `json:"n"`
+	Fill int        `json:"fill"`
+	Tour *tourStops `json:"tour,omitempty"`
 }
 
 type planSession struct {
@@ -51,6 +67,10 @@ type plan struct {
 	Garbage     []int         `json:"garbage"`  // garbage kinds of the fenced check
 	GarbageB    []int         `json:"garbageB"` // garbage kinds interleaved with phase B
 	AltEvery    int           `json:"altEvery"` // every n-th reply comes from a non-target socket
+	// DropFirst (udpsvc.Drop*): before every genuine echo the destination sends a reply the relay must drop.
+	DropFirst int `json:"dropFirst"`
+	// TargetOnly: direct (tunnel) server with tunnelUDPTargetOnly (IP tunnel destination only).
+	TargetOnly bool `json:"targetOnly,omitempty"`
 }
 
 var serverProtos = []string{"socks5", "none", "direct", "2022-blake3-aes-128-gcm", "2022-blake3-aes-256-gcm"}
@@ -99,7 +119,7 @@ func drawPlan(rt *rapid.T) *plan {
 	for s := 0; s < p.NSock; s++ {
 		p.Dests = append(p.Dests, planDest{Sock: s})
 	}
-	nNames := rapid.IntRange(1, 3).Draw(rt, "nNames")
+	nNames := rapid.IntRange(2, 3).Draw(rt, "nNames")
 	for i := 0; i < nNames; i++ {
 		p.Dests = append(p.Dests, planDest{
 			Sock:    rapid.IntRange(0, p.NSock-1).Draw(rt, "nameSock"),
@@ -158,6 +178,31 @@ func drawPlan(rt *rapid.T) *plan {
 		// phase A always starts with a paced datagram so that the session exists at the fence
 		ps.A = append([]planOp{{Kind: "paced", Dest: d1, Alt: d2, N: 1, Fill: drawFill(rt)}}, drawOps("A", true)...)
 		ps.B = drawOps("B", true)
+		// a tour: this one session walks through several destinations (needs a server protocol that
+		// lets the client name the target per datagram)
+		tourOK := p.ServerProto != "direct"
+		if excludeSharedPacker() && usesDirectOut {
+			usesName := p.Dests[d1].Name || p.Dests[d2].Name
+			tourOK = tourOK && (usesName || nameSessions == 0) // the tour must not add a second name-using session
+			if tourOK && !usesName {
+				nameSessions++
+			}
+		}
+		if tourOK && rapid.IntRange(0, 9).Draw(rt, "tour") < 5 {
+			a := p.NSock + rapid.IntRange(0, nNames-1).Draw(rt, "tourA")
+			b := p.NSock + (a-p.NSock+1)%nNames
+			f := len(p.Dests)
+			p.Dests = append(p.Dests, planDest{Sock: (p.Dests[a].Sock + 1) % p.NSock, Name: true, Flaky: true,
+				Fail: rapid.SampledFrom([]string{"servfail", "nxdomain"}).Draw(rt, "failKind")})
+			ap := len(p.Dests)
+			p.Dests = append(p.Dests, planDest{Sock: p.Dests[a].Sock, Name: true, AltPort: true, SameAs: a})
+			op := planOp{Kind: "tour", Fill: drawFill(rt), Tour: &tourStops{A: a, B: b, F: f, IP: rapid.IntRange(0, p.NSock-1).Draw(rt, "tourIP"), AP: ap}}
+			if rapid.Bool().Draw(rt, "tourInA") {
+				ps.A = append(ps.A, op)
+			} else {
+				ps.B = append(ps.B, op)
+			}
+		}
 		p.Sessions = append(p.Sessions, ps)
 	}
 	if len(p.Sessions) == 0 {
@@ -169,11 +214,18 @@ func drawPlan(rt *rapid.T) *plan {
 		p.GarbageB = rapid.SliceOfN(rapid.IntRange(0, len(kinds)-1), 0, 12).Draw(rt, "garbageB")
 	}
 	p.AltEvery = rapid.SampledFrom([]int{0, 0, 2, 5}).Draw(rt, "altEvery")
+	p.DropFirst = rapid.SampledFrom([]int{0, 0, 1, 2}).Draw(rt, "dropFirst")
+	if p.ServerProto == "direct" && !p.Dests[p.TunnelDest].Name && rapid.Bool().Draw(rt, "targetOnly") {
+		// replies from a non-target source must be dropped: send one before every genuine echo
+		p.TargetOnly = true
+		p.AltEvery = 0
+		p.DropFirst = 3
+	}
 	return p
 }
 
 func (p *plan) class() string {
-	names, rebind, burst := 0, false, false
+	names, rebind, burst, tour := 0, false, false, false
 	for _, s := range p.Sessions {
 		for _, ops := range [][]planOp{s.A, s.B} {
 			for _, o := range ops {
@@ -183,7 +235,10 @@ func (p *plan) class() string {
 				case "burst":
 					burst = true
 				}
-				if o.Kind != "rebind" && (p.Dests[o.Dest].Name || p.Dests[o.Alt].Name) {
+				if o.Kind == "tour" {
+					names++
+					tour = true
+				} else if o.Kind != "rebind" && (p.Dests[o.Dest].Name || p.Dests[o.Alt].Name) {
 					names++
 				}
 			}
@@ -193,7 +248,7 @@ func (p *plan) class() string {
 	if names > 0 {
 		nb = "names+"
 	}
-	return fmt.Sprintf("%s|eih=%v|%s|rb=%d,%d|%s|ceih=%v|%s|sess=%d|socks=%d|v6=%v|%s|rebind=%v|burst=%v|g=%d|alt=%d",
+	return fmt.Sprintf("%s|eih=%v|%s|rb=%d,%d|%s|ceih=%v|%s|sess=%d|socks=%d|v6=%v|%s|rebind=%v|burst=%v|g=%d|alt=%d|tour=%v|drop=%d|to=%v",
 		p.ServerProto, p.ServerEIH, p.BatchMode, p.RelayBatch, p.RecvBatch, p.ClientProto, p.ClientEIH, p.Topology,
-		len(p.Sessions), p.NSock, p.V6, nb, rebind, burst, len(p.Garbage), p.AltEvery)
+		len(p.Sessions), p.NSock, p.V6, nb, rebind, burst, len(p.Garbage), p.AltEvery, tour, p.DropFirst, p.TargetOnly)
 }
